@@ -55,7 +55,8 @@ for _n in REUSE:
     TABLE[_n + "[reused object]"] = TABLE[_n]
 TILT_ONLY = {"Tilt/acc-only", "AQUA.estimate/acc", "acc2q"}
 ROUTES = list(TABLE)
-REGIONS = {"general": 150, "generic": 60, "special:level": 13, "special:inverted": 7, "special:vertical": 12, "special:half-turn": 8, "special:identity": 1}
+REGIONS = {"general": 150, "generic": 60, "special:level": 13, "special:inverted": 7, "special:vertical": 12, "special:half-turn": 8, "special:identity": 1,
+           "near-special:level": 20, "near-special:inverted": 10, "near-special:vertical": 20, "near-special:half-turn": 12}
 PROBES = [("ahrs.filters.triad", "TRIAD.estimate"), ("ahrs.filters.davenport", "Davenport.estimate"), ("ahrs.filters.quest", "QUEST.estimate"),
           ("ahrs.filters.flae", "FLAE.estimate"), ("ahrs.filters.oleq", "OLEQ.estimate"), ("ahrs.filters.saam", "SAAM.estimate"),
           ("ahrs.filters.famc", "FAMC.estimate"), ("ahrs.filters.fqa", "FQA.estimate"), ("ahrs.filters.tilt", "Tilt.estimate"),
@@ -102,6 +103,20 @@ def generate(rng, tier, shard, nshards):
                 continue
             yield Case("free", "special:" + lab.split()[0], q=q, label=lab, dip=draw_dip(rng, k) if rep else 55.0,
                        sa=2.5 if not rep else gens.logu(rng, 1e-2, 1e2), sm=31.0 if not rep else gens.logu(rng, 1e-2, 1e3), seed=int(rng.integers(2**31)))
+    yield from near_special(rng, tier, shard, nshards)
+
+
+def near_special(rng, tier, shard, nshards):
+    """attitudes a tiny rotation (1e-9 .. 1e-3 rad) away from the canonical ones: where closed forms are singular AT the pose, the robust
+    ones must still deliver full accuracy next to it"""
+    sp = gens.special_poses()
+    for rep in range(2 if tier == "quick" else gens.reps(6, tier)):
+        for k, (lab, q) in enumerate(sp):
+            if (k + rep) % nshards != shard:
+                continue
+            dq = rq.axang2q(gens.axis(rng), gens.logu(rng, 1e-9, 1e-3))
+            yield Case("free", "near-special:" + lab.split()[0], q=rq.qnormalize(rq.qmul(q, dq) if rep % 2 else rq.qmul(dq, q)), label="near " + lab, dip=draw_dip(rng, k + 1),
+                       sa=gens.logu(rng, 1e-2, 1e2), sm=gens.logu(rng, 1e-2, 1e3), seed=int(rng.integers(2**31)))
 
 
 def nontrivial(case):
